@@ -7,7 +7,7 @@
    relabellings (size-n1 subsets of the pool taken as the first sample) whose 2U is <= w. *)
 From Coq Require Import List ZArith QArith Permutation.
 From MM Require Import Base.Num Base.GEComb Base.GESort Spec.Ucount Model.GEChoose Model.Udist Model.Utest
-  Proofs.Utest Proofs.UtestP Proofs.UtestLaws Proofs.UtestSym Proofs.UtestSymLaws.
+  Proofs.Utest Proofs.UtestP Proofs.UtestLaws Proofs.UtestSym Proofs.UtestSymLaws Check.GEMw Proofs.CheckMw.
 Import ListNotations.
 Local Open Scope Z_scope.
 
@@ -147,6 +147,37 @@ Proof.
 Qed.
 Print Assumptions C01_error_cases.
 
+(* ---- what the correspondence check establishes (Check/GEMw.v, Check/C01.v) ---- *)
+(* the executable distribution table the comparator evaluates IS the model's UDist.CDF on every real argument,
+   so the expected p-values of the check are the model's (and hence, by the theorems above, the specified ones) *)
+Theorem C01_check_table_is_cdf : forall {A} (cmp : A -> A -> comparison), total_preorder cmp ->
+  forall x1 x2 : list A, x1 <> [] -> x2 <> [] ->
+  let s := mw_stat cmp x1 x2 in length (ms_T s) <> 1%nat ->
+  forall u : Q, (table_cdf (length x1) (length x2) (ms_T s) u == udist_cdf (length x1) (length x2) (ms_T s) u)%Q.
+Proof. intros A cmp (Hr & Ha & Ht). exact (table_cdf_is_udist_cdf cmp Hr Ha Ht). Qed.
+Print Assumptions C01_check_table_is_cdf.
+(* a run the comparator accepts with code V_OK: arguments and limit variables intact; for EVERY call the status,
+   N1, N2, U (exactly), the echoed alternative and P (within 1e-10 + 1e-9 |P| of the SPECIFIED value on the exact
+   branch; within 1e-9 of the tail expression over the implementation's own Phi at the model's z otherwise)
+   agree with the model result on the exactly decoded inputs *)
+Theorem C01_check_ok_sound : forall run tag, check_run run = (V_OK, tag, None) ->
+  r_pure run = 1 /\
+  Forall (fun c => call_ok (mw_test Qcompare udist_cdf (r_EL run) (r_TL run) (r_x1 run) (r_x2 run) (c_alt c)) c) (r_calls run).
+Proof. exact check_run_ok_sound. Qed.
+Print Assumptions C01_check_ok_sound.
+(* a run accepted with ANY code (no mismatch): each call is as above, or is the known finding D2 — P near the legacy
+   two-sided value and NOT near the specified one — which can only happen for the two-sided alternative on a
+   non-palindromic tie vector *)
+Theorem C01_check_accept_sound : forall run code tag, check_run run = (code, tag, None) ->
+  r_pure run = 1 /\
+  Forall (fun c => let r := mw_test Qcompare udist_cdf (r_EL run) (r_TL run) (r_x1 run) (r_x2 run) (c_alt c) in
+                   call_ok r c \/
+                   (call_d2 r c /\ c_alt c = 0 /\
+                    rev (ms_T (mw_stat Qcompare (r_x1 run) (r_x2 run))) <> ms_T (mw_stat Qcompare (r_x1 run) (r_x2 run))))
+         (r_calls run).
+Proof. exact check_run_accept_sound. Qed.
+Print Assumptions C01_check_accept_sound.
+
 (* ---------- non-vacuity ---------- *)
 Example C01_Z_is_total_preorder : total_preorder Z.compare.
 Proof. exact (conj Zcmp_refl (conj Zcmp_antisym Zcmp_trans)). Qed.
@@ -174,3 +205,8 @@ Example C01_palindromic_examples :
   (match mw_test Z.compare udist_cdf 50 2 [1; 3; 3] [1; 2] 0 with MWApprox 3 2 9 _ _ => True | _ => False end) /\
   (match mw_test Z.compare udist_cdf 2 25 [5; 1; 4] [2; 3; 6; 0] 0 with MWApprox 3 4 14 _ _ => True | _ => False end).
 Proof. vm_compute. repeat split; reflexivity. Qed.
+(* the hypothesis of C01_check_ok_sound is satisfiable: a run (one call, LocationLess, P = 9/10) the comparator accepts *)
+Example C01_check_accepts_example :
+  check_run (mkRun 50 25 [1; 3; 3]%Q [1; 2]%Q [mkCall (-1) 0 3 2 (XFin (9 # 2)) (XFin (9 # 10)) (-1) (XFin 0) (XFin 0)] 1)
+  = (V_OK, 34, None).
+Proof. vm_compute. reflexivity. Qed.
